@@ -817,7 +817,10 @@ Proof.
     cbn [fx_f09 fixed_tree].
     pose proof (a_admit_pub cf st log PsPs s n H) as Ha.
     destruct (admit_pub cf st PsPs s n true) as [[st1 ok] g]. cbn [fst] in Ha.
-    destruct ok; cbn [fst snd]; apply a_nil; (eapply a_same_tables; [exact Ha|reflexivity..]).
+    destruct ok; cbn [fst snd]; [destruct listen; cbn [fst snd]|]; apply a_nil; try (eapply a_same_tables; [exact Ha|reflexivity..]).
+    (* Listen failed: the state of a refusal *)
+    destruct (get_or_create cf st s) as [st0 g0] eqn:Eg. cbn [fst].
+    pose proof (a_get_or_create _ _ _ _ _ _ H Eg) as H0. eapply a_same_tables; [exact H0|reflexivity..].
   - (* EGone *)
     destruct (find_sess n (st_sess st)) as [x|]; cbn [fst snd]; [|apply a_nil; assumption].
     destruct (s_gone x); cbn [fst snd]; [apply a_nil; assumption|].
